@@ -376,8 +376,8 @@ func (b *baton) run(fns []func() taskResult) {
 	first := b.choose(true)
 	b.cur = b.tasks[first]
 	b.trace = append(b.trace, Switch{0, first})
-	simrt.SetCurrentTask(b.cur.ts)
 	simrt.AttachScheduler(b.yield)
+	simrt.SetCurrentTask(b.cur.ts) // after attaching: AttachScheduler clears the current task
 	b.cur.resume <- struct{}{}
 	<-finished
 	simrt.DetachScheduler()
@@ -410,14 +410,22 @@ message ImpNote { 1 -> string text; 2 -> ImpPoint at; }
 union ImpU { 1 -> struct ImpA { bool b; } 2 -> message ImpB { 1 -> ImpPoint p; } }
 `
 
+const impTextY = `const string go_package = "example.com/sim/impy";
+enum ImpySize { Small = 1; Large = 2; }
+struct ImpyBox { ImpySize sz; float64 w; }
+message ImpyTag { 1 -> string k; 2 -> ImpyBox box; }
+`
+
 // prepareFile parses the main text (with an optional import) into the shared File and
 // optionally gives every top-level slice spare capacity filled with sentinel entries.
 func prepareFile(text string, withImport bool, spare int) (*bebop.File, []byte, error) {
 	ws := workspace()
 	os.WriteFile(filepath.Join(ws.dir, "impx.bop"), []byte(impText), 0o644)
+	os.WriteFile(filepath.Join(ws.dir, "impy.bop"), []byte(impTextY), 0o644)
 	main := text
 	if withImport {
-		main = "import \"impx.bop\"\n" + text + "\nstruct UsesImp { ImpPoint p; ImpColor c; }\n"
+		// two imported files with different go_package values, both used by this file
+		main = "import \"impx.bop\"\nimport \"impy.bop\"\n" + text + "\nstruct UsesImp { ImpPoint p; ImpColor c; ImpyBox b; ImpySize s; }\nmessage UsesImpMsg { 1 -> ImpyTag t; 2 -> ImpNote n; }\n"
 	}
 	f, _, err := bebop.ReadFile(bytes.NewReader([]byte(main)))
 	if err != nil {
@@ -515,12 +523,10 @@ func runC14(c *Ctx) *Replay {
 // shrinkInputGeneric reports a violation of an input-bytes scenario without minimising
 // beyond the schedule (inputs here are schema texts a reader can inspect).
 func (c *Ctx) shrinkInputGeneric(sc *Scenario, v *Violation, ex execFn) *Replay {
-	rp := &Replay{Property: c.N.Batch.Property, Scenario: *sc, Violation: *v}
-	rp.Violation.Property = c.N.Batch.Property
-	if seenSig[v.Signature] {
-		return nil
+	rp, fresh := c.gate(sc, v, nil)
+	if !fresh {
+		return rp
 	}
-	seenSig[v.Signature] = true
 	for _, alt := range []*simnet.Schedule{{Name: "1-byte", Repeat: 1}, {Name: "fixed", Repeat: 3}} {
 		cand := cloneScenario(&rp.Scenario)
 		cand.Sched = alt
@@ -543,25 +549,10 @@ func atoiDefault(s string, d int64) int64 {
 }
 
 func (c *Ctx) shrinkConcurrent(sc *Scenario, v *Violation) *Replay {
-	rp := &Replay{Property: c.N.Batch.Property, Scenario: *sc, Violation: *v}
-	rp.Violation.Property = c.N.Batch.Property
-	for i := range c.N.Batch.Known {
-		k := &c.N.Batch.Known[i]
-		if k.Match(rp) {
-			c.Count("known:"+k.ID, 1)
-			if !seenSig["known:"+k.ID] {
-				seenSig["known:"+k.ID] = true
-				rp.Known = k.ID
-				return rp
-			}
-			return nil
-		}
+	rp, fresh := c.gate(sc, v, nil)
+	if !fresh {
+		return rp
 	}
-	c.Count("violations_raw", 1)
-	if seenSig[v.Signature] {
-		return nil
-	}
-	seenSig[v.Signature] = true
 	budget := 120
 	try := func(cand Scenario) bool {
 		if budget <= 0 {
